@@ -79,7 +79,7 @@ META = {
                        "dict insertion by subscript store or update({k: v}); counter or len(<sizes>) numbering; block-size formula inline or in one shared private helper"],
     "technique": "CFG post-dominance/dominance for writer discipline + shape/dataflow matching of the renumbering loop and of each reader's offset derivation",
 }
-MIN_INSTANCES = {"R1": 16, "R2": 10, "R3": 20, "R4": 14}
+MIN_INSTANCES = {"R1": 16, "R2": 10, "R3": 20, "R4": 14, "R5": 1}
 
 
 # ----------------------------------------------------------------------------------------------
@@ -248,11 +248,78 @@ def _all_name_stores(fn: ast.AST, name: str) -> list[ast.stmt]:
 # R1 writers
 # ----------------------------------------------------------------------------------------------
 
+MDGRID = "src/porepy/grids/md_grid.py"
+_RAISING_ACCESSORS: set = set()
+
+
+def _raising_md_accessors(repo) -> set[str]:
+    """Methods of MixedDimensionalGrid that raise KeyError for a grid that is not in the md-grid: their body subscripts a
+    private dict of the container with a parameter, unguarded (read off the source, no hand-written table)."""
+    out: set[str] = set()
+    mod = repo.module(MDGRID)
+    cls = mod.cls("MixedDimensionalGrid")
+    for name, m in methods(cls).items():
+        ps = [a.arg for a in m.args.args if a.arg != "self"]
+        if not ps or name.startswith("_"):
+            continue
+        in_try = set()
+        for t in walk_local(m):
+            if isinstance(t, ast.Try) and any("KeyError" in u(h.type) for h in t.handlers if h.type is not None):
+                in_try |= {id(x) for b in t.body for x in ast.walk(b)}
+        for n in walk_local(m):
+            if isinstance(n, ast.Subscript) and isinstance(n.ctx, ast.Load) and isinstance(n.value, ast.Attribute) \
+                    and isinstance(n.value.value, ast.Name) and n.value.value.id == "self" and n.value.attr.startswith("_") \
+                    and isinstance(n.slice, ast.Name) and n.slice.id in ps and id(n) not in in_try:
+                out.add(name)
+    return out
+
+
+def _implicit_raise_nodes(g: cfgmod.CFG, fn: ast.FunctionDef, recluster_recv: set[str]) -> list[tuple[int, ast.Call]]:
+    """CFG nodes holding a call `<x>.mdg.<raising accessor>(k)` where k is a grid the CALLER chose (a parameter, or the
+    variable of a loop that does not iterate the md-grid's own listing).  Nodes inside a try whose `finally` re-clusters are
+    exempt (the finally block runs before the exception propagates)."""
+    if not _RAISING_ACCESSORS:
+        return []
+    pm = parent_map(fn)
+    params = {a.arg for a in fn.args.args + fn.args.kwonlyargs}
+    out = []
+    for n, st in g.stmt.items():
+        if isinstance(st, (ast.FunctionDef, ast.AsyncFunctionDef, ast.ClassDef)):
+            continue
+        exprs = [st.test] if isinstance(st, (ast.If, ast.While)) else ([st.iter] if isinstance(st, ast.For) else (
+            [i.context_expr for i in st.items] if isinstance(st, ast.With) else [st]))
+        for e in exprs:
+            for c in ast.walk(e):
+                if not (isinstance(c, ast.Call) and isinstance(c.func, ast.Attribute) and c.func.attr in _RAISING_ACCESSORS
+                        and u(c.func.value).split(".")[-1] == "mdg" and (c.args or c.keywords)):
+                    continue
+                key = c.args[0] if c.args else c.keywords[0].value
+                if not isinstance(key, ast.Name):
+                    continue
+                foreign = key.id in params
+                cur: ast.AST = st
+                protected = False
+                while cur in pm:
+                    cur = pm[cur]
+                    if isinstance(cur, ast.For) and key.id in {x.id for x in ast.walk(cur.target) if isinstance(x, ast.Name)}:
+                        foreign = _grid_source(cur.iter, fn) is None
+                    if isinstance(cur, ast.Try) and cur.finalbody and any(
+                            isinstance(x, ast.Call) and isinstance(x.func, ast.Attribute) and x.func.attr == RECLUSTER
+                            and u(x.func.value) in recluster_recv for b in cur.finalbody for x in ast.walk(b)):
+                        protected = True
+                if foreign and not protected:
+                    out.append((n, c))
+    return out
+
+
 def _check_writer(ctx: Ctx, rel: str, qual: str, fn: ast.FunctionDef) -> int:
     writes = state_writes(fn)
     if not writes:
         return 0
     g = cfgmod.build(fn)
+    implicit = _implicit_raise_nodes(g, fn, {r for _, r, _, _ in writes})
+    for n_, _c in implicit:
+        g.g.add_edge(n_, cfgmod.RAISE, cond=None)
     rec = _recluster_calls(fn)
     for stmt, recv, attr, how in writes:
         wn = g.node_for(_cfg_stmt(g, fn, stmt))
@@ -273,7 +340,14 @@ def _check_writer(ctx: Ctx, rel: str, qual: str, fn: ast.FunctionDef) -> int:
                            for cst, crecv in rec)
         msg = (f"write to {recv}.{attr} ({how}) is not followed on every normally-returning path by "
                f"{recv}.{RECLUSTER}(): block numbers/sizes are left stale or not grid-wise ordered")
-        if ok and not ok_raise:
+        via = [c_ for n_, c_ in implicit if g.reachable(wn, n_) or n_ == wn]
+        if ok and not ok_raise and via and not any(
+                isinstance(x, ast.Raise) and g.reachable(wn, g.node_for(x)) for x in walk_local(fn) if isinstance(x, ast.Raise) and x in g.stmt.values()):
+            msg = (f"after the write to {recv}.{attr} ({how}) the lookup {u(via[0])} can raise KeyError (grid chosen by the caller, "
+                   f"not in the md-grid) before {recv}.{RECLUSTER}() has run: the variables registered for earlier grids stay at the "
+                   f"end of the block order (after interface variables) in a live object; look all grids up before mutating, or "
+                   f"re-cluster in a finally clause")
+        elif ok and not ok_raise:
             msg = (f"after the write to {recv}.{attr} ({how}) an explicit `raise` can be reached before {recv}.{RECLUSTER}() "
                    f"has run (e.g. the validation of a later loop item fails): the exception leaves _variable_num_dofs / "
                    f"_variable_numbers stale in a live object; re-cluster inside the same iteration or validate before mutating")
@@ -1334,6 +1408,86 @@ def _check_num_dofs(ctx: Ctx, rel: str, fn: ast.FunctionDef) -> None:
 
 
 # ----------------------------------------------------------------------------------------------
+# R5 additive writes: dtype of a slot that is accumulated in place
+# ----------------------------------------------------------------------------------------------
+
+ADUTILS = "src/porepy/numerics/ad/ad_utils.py"
+FLOAT_DTYPES = {"float", "np.float64", "numpy.float64", "np.double", "np.floating", "'float64'", "'float'", "np.float_", "complex", "np.complex128"}
+
+
+def _is_float_dtype(d: ast.expr) -> bool:
+    if u(d) in FLOAT_DTYPES:
+        return True
+    # np.result_type(x, float) / np.promote_types(x.dtype, float): at least floating, whatever x is
+    return isinstance(d, ast.Call) and call_name(d) in ("result_type", "promote_types") and any(u(a) in FLOAT_DTYPES for a in d.args)
+
+
+def _fixes_float_dtype(e: ast.expr) -> Optional[bool]:
+    """True if the expression yields a fresh array of floating dtype whatever the argument's dtype, False if it inherits
+    the argument's dtype, None if unknown."""
+    if isinstance(e, ast.Call):
+        cn = call_name(e)
+        dt = kwarg(e, "dtype")
+        if cn in ("array", "asarray", "asfarray", "ascontiguousarray", "zeros_like", "empty_like", "full_like"):
+            if cn == "asfarray":
+                return True
+            if dt is not None:
+                return _is_float_dtype(dt)
+            if len(e.args) >= 2 and _is_float_dtype(e.args[1]):
+                return True
+            return False
+        if cn == "astype" and e.args:
+            return _is_float_dtype(e.args[0])
+        if cn == "copy" and isinstance(e.func, ast.Attribute):
+            inner = _fixes_float_dtype(e.func.value)
+            return False if inner is None and isinstance(e.func.value, ast.Name) else inner
+        if cn in ("float64", "double"):
+            return True
+    if isinstance(e, ast.BinOp):
+        # arithmetic with a float literal promotes (x * 1.0, x + 0.0)
+        for a in (e.left, e.right):
+            if isinstance(a, ast.Constant) and isinstance(a.value, float):
+                return True
+        return None
+    if isinstance(e, ast.Name):
+        return False
+    return None
+
+
+def _check_additive_dtype(ctx: Ctx) -> None:
+    mod = ctx.repo.module(ADUTILS)
+    fn = mod.func("set_solution_values")
+    q = "set_solution_values"
+    params = [a.arg for a in fn.args.args]
+    augs = [s for s in walk_local(fn) if isinstance(s, ast.AugAssign) and isinstance(s.target, ast.Subscript) and isinstance(s.op, ast.Add)]
+    stores = [s for s in walk_local(fn) if isinstance(s, ast.Assign) and len(s.targets) == 1 and isinstance(s.targets[0], ast.Subscript)]
+    if not augs:
+        # out-of-place accumulation (slot = slot + values) lets numpy promote: nothing to require
+        acc = [s for s in stores if isinstance(s.value, ast.BinOp) and isinstance(s.value.op, ast.Add)
+               and u(s.targets[0]) in (u(s.value.left), u(s.value.right))]
+        if not acc:
+            raise AnchorError(f"{ADUTILS}:{q}: additive write not found")
+        ctx.check("R5", True, mod, q, acc[0], "additive writes accumulate out of place (numpy promotes the dtype)", construct=f"out-of-place {u(acc[0])[:80]}")
+        return
+    for a in augs:
+        slot = u(a.target)
+        same = [s for s in stores if u(s.targets[0]) == slot]
+        if not same:
+            raise Undecided(f"{ADUTILS}:{q}: no plain store into the accumulated slot {slot}")
+        for st in same:
+            v = inline_locals(fn, st.value, stop=params)
+            fx = _fixes_float_dtype(v)
+            if fx is None:
+                raise Undecided(f"{ADUTILS}:{q}: cannot tell the dtype of the stored array {u(v)[:60]}")
+            ctx.check("R5", fx, mod, q, st,
+                      f"the slot {slot} is later accumulated IN PLACE ({u(a)}): an in-place += keeps the dtype of the array created here, "
+                      f"which is the caller's dtype ({u(v)}); after a first write with an integer array every additive write of floats "
+                      f"raises numpy's same-kind casting error (or would truncate): store a floating copy, or accumulate out of place",
+                      construct=f"store {slot} = {u(v)} ; accumulate {u(a)}",
+                      desc=f"array stored in {slot} has a dtype that can hold later in-place increments")
+
+
+# ----------------------------------------------------------------------------------------------
 # R4 block size formulas
 # ----------------------------------------------------------------------------------------------
 
@@ -1404,6 +1558,10 @@ def run(ctx: Ctx) -> None:
     meths = methods(cls)
     _METHS.clear()
     _METHS.update(meths)
+    _RAISING_ACCESSORS.clear()
+    _RAISING_ACCESSORS.update(_raising_md_accessors(ctx.repo))
+    if not {"subdomain_data", "interface_data"} <= _RAISING_ACCESSORS:
+        raise AnchorError(f"{MDGRID}: subdomain_data/interface_data no longer subscript the container dicts unguarded")
     for need in PRIMITIVES + ("__init__", "create_variables", "remove_variables", "dofs_of", "identify_dof",
                               "projection_to", "get_variable_values", "set_variable_values", "num_dofs"):
         if need not in meths:
@@ -1434,6 +1592,9 @@ def run(ctx: Ctx) -> None:
     _check_get_values(ctx, mod.rel, meths["get_variable_values"])
     _check_set_values(ctx, mod.rel, meths["set_variable_values"])
     _check_num_dofs(ctx, mod.rel, meths["num_dofs"])
+
+    # ---- R5 ------------------------------------------------------------------------------------
+    _check_additive_dtype(ctx)
 
     # ---- R4 ------------------------------------------------------------------------------------
     _check_size_formula(ctx, mod.rel, f"{CLS}._append_dofs", meths["_append_dofs"])
